@@ -125,6 +125,9 @@ func Models() []Model {
 			texts = append(texts, fuzzInput{text: q, class: "multipart"})
 		}
 	}
+	for _, q := range translatorShapes {
+		texts = append(texts, fuzzInput{text: q, class: "translator-shape"})
+	}
 	var out []Model
 	seen := map[string]bool{}
 	for _, in := range texts {
@@ -137,4 +140,58 @@ func Models() []Model {
 		}
 	}
 	return out
+}
+
+// translatorShapes: read queries that make the translator's features meet - UNWIND with expansions, pattern predicates
+// next to path variables and across MATCH clauses, aggregation between parts, OPTIONAL MATCH with expansions, several
+// patterns sharing variables.
+var translatorShapes = []string{
+	"unwind [1, 2] as x match (n)-[:E*1..]->(m) where n.v = x return m",
+	"with ['a', 'b'] as names unwind names as name match (u:K)-[:E*1..]->(t:K) where u.name = name return t",
+	"unwind [1, 2] as x match (n)-[:E]->(m) where m.v = x return n, m",
+	"match (n) unwind [1, 2] as x match (n)-[:E*1..2]->(m) where m.v = x return m",
+	"match p = (n)-[r]->(m) where (m)-[]->() return p",
+	"match p = (n)-[r:E]->(m) where not (m)-[:E]->(n) return p",
+	"match p = (n)-[r]->(m) match (o) where (m)-[]->(o) return p, o",
+	"match (n)-[:E]->(m) match (o) where (n)-[:E]->(o) and (o)-[:E]->(m) return o",
+	"match (n) where not (n)-[:E]->() return n",
+	"match (n) where (n)-[:E]->() and (n)<-[:E]-() return n",
+	"match (n)-[:E*1..]->(m) where (m)-[:E]->(n) return n",
+	"match p = (a)-[:E*1..]->(b) where all(x in nodes(p) where x.ok = true) return p",
+	"match p = (a)-[:E*1..]->(b) where none(r in relationships(p) where r.w > 3) return b",
+	"match p = (a)-[:E*1..3]->(b) return length(p), nodes(p), relationships(p)",
+	"match (a)-[:E]->(b) with a, count(b) as c where c > 1 match (a)-[:E*1..2]->(d) return a, d, c",
+	"match (a)-[:E]->(b) with a, collect(b) as bs match (a)-[:E]->(c) where c in bs return a, c",
+	"match (a)-[:E]->(b) with b order by b.x limit 5 match (b)-[:E*1..]->(c) return c",
+	"match (a) with a skip 1 limit 2 match p = (a)-[:E]->(b) return p",
+	"match (a) optional match (a)-[:E*1..]->(b) return a, b",
+	"match (a) optional match p = (a)-[:E]->(b)-[:E]->(c) return a, p",
+	"match (a) optional match (a)-[:E]->(b) optional match (b)-[:E]->(c) return a, b, c",
+	"match (a) optional match (a)-[:E]->(b) where b.x = 1 return a, count(b)",
+	"match (a)-[r:E]->(b) where a.x = b.x and r.w > 1 return a order by b.y limit 3",
+	"match (a), (b) where a.x = b.y return a, b",
+	"match (a)-[:E]->(b)-[:E]->(c) where a.x = c.x return b",
+	"match (a)-[:E]->(b)<-[:E]-(c) where a <> c return a, c",
+	"match (a)-[:E]->(b), (b)-[:E]->(c), (c)-[:E]->(a) return a, b, c",
+	"match (a)-[r1:E]->(b), (a)-[r2:E]->(c) where r1 <> r2 return b, c",
+	"match (a)-[:E]-(b) return a, b",
+	"match (a)-[:E*1..2]-(b) where a.x = 1 return b",
+	"match (a) where a.x in [1, 2] with collect(a) as xs unwind xs as a2 match (a2)-[:E]->(b) return b",
+	"match (a)-[:E*0..]->(b)-[:E]->(c:K) where c.name = 'x' return a",
+	"match p = (a:K)-[:E*1..]->(b:K) where a.name = 'x' and b.name = 'y' return p limit 10",
+	"match p = (a)-[:E*2..4]->(b) where a.x = b.x return p",
+	"match (a)-[:E*1..]->(b)-[:E*1..]->(c) return a, c",
+	"match p1 = (a)-[:E]->(b), p2 = (b)-[:E]->(c) return p1, p2",
+	"match (n) return n.a as x, count(n) as c order by c desc, x limit 5",
+	"match (n) with n.a as x, collect(n.b) as ys return x, size(ys)",
+	"match (n) where n.a is not null with distinct n.a as x return x order by x",
+	"match (a)-[r]->(b) return type(r), startNode(r), endNode(r), id(a), labels(b)",
+	"match (a)-[r:E]->(b) where id(a) = 1 and id(b) in [2, 3] return r",
+	"match (a) where a.name starts with 'x' or a.name ends with 'y' or a.name contains 'z' return a",
+	"match (a) where toLower(a.name) = 'x' and toUpper(a.other) <> 'Y' and size(a.list) > 0 return a",
+	"match (a) where a.d > datetime().epochseconds - 100 return a",
+	"match (a) where any(x in a.l where x = 1) and none(y in a.m where y = 2) return a",
+	"match (a)-[:E]->(b) where any(x in b.l where x = a.v) return a",
+	"match (a) return case when a.x = 1 then 'one' else 'other' end as label",
+	"match (a)-[:E]->(b) return a, collect(distinct b) as bs, count(distinct b) as c",
 }
